@@ -1,0 +1,9 @@
+//go:build !verif
+
+package types
+
+import sdk "github.com/cosmos/cosmos-sdk/types"
+
+func verifEnterUnit(ctx sdk.Context) (sdk.Context, bool) { return ctx, false }
+
+func verifExitUnit() {}
